@@ -39,7 +39,8 @@ def _vals(tier):
              ("tuple", [("bare", "DisplayName", ("q", "The Command"))]), ("tuple", [("q", "A", ("q", "B")), ("bare", "C", ("bare", "D"))]),
              ("tuple", [("bare", "k1", ("int", "5")), ("q", "k 2", ("dec", "2.5")), ("bare", "k3", ("q", "x:y"))]),
              ("tuple", [("bare", "Color", ("bare", "Blue"))]), ("tuple", [("bare", "Visible", ("bare", "True")), ("bare", "False", ("bare", "no"))]),
-             ("tuple", [("bare", "Kind", ("bare", "True north")), ("q", "True", ("q", "False"))]), ("list", [("bare", "True"), ("bare", "False"), ("bare", "True Color")])]
+             ("tuple", [("bare", "Kind", ("bare", "True north")), ("q", "True", ("q", "False"))]), ("list", [("bare", "True"), ("bare", "False"), ("bare", "True Color")]),
+             ("tuple", [("bare", "Low", ("int", "-1")), ("bare", "High", ("dec", "+2.5")), ("q", "z", ("dec", "-.5")), ("bare", "n", ("int", "+7"))])]  # signed numbers as tuple values
     return vals + lists
 
 
